@@ -53,7 +53,13 @@ func (x *Exec) libModel(st *State, call *ast.CallExpr, fn *types.Func, key strin
 	boolT := types.Typ[types.Bool]
 	mkb := func(t string) []Val { return []Val{{T: t, Sort: "Bool", GoT: boolT}} }
 	switch key {
-	case "errors.New", "fmt.Errorf":
+	case "github.com/pkg/errors.Wrap", "github.com/pkg/errors.Wrapf", "github.com/pkg/errors.WithStack", "github.com/pkg/errors.WithMessage":
+		// nil iff the wrapped error is nil
+		rt := x.resultTypes(call)[0]
+		v := x.freshVal("werr", rt)
+		x.assume(st, eq(eq(v.T, x.vc.nilTerm(v.Sort)), eq(args[0].T, x.vc.nilTerm(args[0].Sort))))
+		return []Val{v}, true
+	case "errors.New", "fmt.Errorf", "github.com/pkg/errors.New", "github.com/pkg/errors.Errorf":
 		rt := x.resultTypes(call)[0]
 		v := x.freshVal("err", rt)
 		x.assume(st, not(eq(v.T, x.vc.nilTerm(v.Sort))))
@@ -103,6 +109,11 @@ func (x *Exec) evLockOp(st *State, call *ast.CallExpr) ([]Val, bool) {
 		return nil, false
 	}
 	fn := x.calleeFunc(call)
+	if fn != nil && fn.Pkg() != nil && fn.Pkg().Path() == "net/url" {
+		if r := fn.Type().(*types.Signature).Recv(); r != nil && r.Type().String() == "net/url.Values" {
+			return x.evURLValuesOp(st, call, selx, fn)
+		}
+	}
 	if fn == nil || fn.Pkg() == nil || fn.Pkg().Path() != "sync" {
 		return nil, false
 	}
@@ -156,6 +167,43 @@ func (x *Exec) evSyncMapOp(st *State, call *ast.CallExpr, selx *ast.SelectorExpr
 		nm := m
 		nm.T = fmt.Sprintf("(store %s %s false)", m.T, k.T)
 		x.storeLV(st, lv, nm)
+		return nil, true
+	}
+	return nil, false
+}
+
+// evURLValuesOp: url.Values (map[string][]string) accessors with their documented meaning
+func (x *Exec) evURLValuesOp(st *State, call *ast.CallExpr, selx *ast.SelectorExpr, fn *types.Func) ([]Val, bool) {
+	switch fn.Name() {
+	case "Get", "Set", "Del":
+	default:
+		return nil, false
+	}
+	lv := x.lvOrTemp(st, selx.X)
+	m := x.load(st, lv)
+	inf := x.vc.info(m.Sort)
+	if inf == nil || inf.Kind != kMap {
+		return nil, false
+	}
+	k := x.ev(st, call.Args[0])
+	slSort := inf.Elem
+	switch fn.Name() {
+	case "Get":
+		vs := x.vc.mapVal(m, k.T)
+		first := x.vc.slIndex(vs, x.vc.intLit(0))
+		t := ite(and(x.vc.mapDom(m, k.T), x.vc.cmp(">", x.vc.slLen(vs), x.vc.intLit(0), true)), first.T, "str_empty")
+		return []Val{x.name("qget", Val{T: t, Sort: "Str", GoT: types.Typ[types.String]})}, true
+	case "Set":
+		v := x.ev(st, call.Args[1])
+		one := x.vc.mkSlice(slSort, fmt.Sprintf("(store %s %s %s)", x.vc.constArr(x.vc.intSort(), "Str"), x.vc.intLit(0), v.T), x.vc.intLit(1), "false")
+		nm := m
+		nm.T = x.vc.mapStore(m, k.T, one)
+		x.storeLV(st, lv, x.name("qset", nm))
+		return nil, true
+	case "Del":
+		nm := m
+		nm.T = x.vc.mapDelete(m, k.T)
+		x.storeLV(st, lv, x.name("qdel", nm))
 		return nil, true
 	}
 	return nil, false
